@@ -62,7 +62,8 @@ func (c CurlyRouter) matchesRouteByPathTokens(routeTokens, requestTokens []strin
 	if len(routeTokens) < len(requestTokens) {
 		// proceed in matching only if last routeToken is wildcard
 		count := len(routeTokens)
-		if count == 0 || !strings.HasSuffix(routeTokens[count-1], "*}") {
+		// {var:*} ; a regular expression that merely ends with a star is not a wildcard
+		if count == 0 || !strings.HasSuffix(routeTokens[count-1], ":*}") {
 			return false, 0, 0
 		}
 		// proceed
